@@ -9,10 +9,10 @@ from props.devs_common import coq_case, nontrivial, op_kinds, run_impl  # noqa: 
 ID = "C15"
 COQ_PROPERTY_FILE = "Properties/C15.v"
 COQ_DEPS = ["Generated/Tables.v", "Model/Devs.v", "Model/DevsSpec.v", "Proofs/DevsProofs.v", "Proofs/DevsChunkProofs.v", "Proofs/DevsStepProofs.v",
-            "Proofs/DevsTopProofs.v", "Proofs/DevsVizProofs.v", "Proofs/DevsVizTopProofs.v", "Proofs/DevsOrderProofs.v", "Proofs/DevsBridge.v"]
-COQ_IMPORTS = "From Mesa Require Import Generated.Tables Model.Devs."
-COQ_CASE_TYPE = "case"
-COQ_RUN = "run_case"
+            "Proofs/DevsTopProofs.v", "Proofs/DevsVizProofs.v", "Proofs/DevsVizTopProofs.v", "Proofs/DevsOrderProofs.v", "Proofs/DevsBridge.v", "Model/DevsLife.v", "Proofs/DevsOnceProofs.v", "Proofs/DevsTop14Proofs.v", "Proofs/DevsLifeProofs.v"]
+COQ_IMPORTS = "From Mesa Require Import Generated.Tables Model.Devs Model.DevsLife."
+COQ_CASE_TYPE = "xcase"
+COQ_RUN = "run_xcase"
 TABLE_CONSTRUCTS = ["devs_priority_values", "devs_event_key", "devs_step_priority", "devs_viz_run_for",
                     "devs_skeleton", "devs_rel_code", "devs_abs_code", "devs_now_code", "devs_tick_code", "devs_schedule_event_code", "devs_run_for_code",
                     "devs_until_code", "devs_until_abm_code", "devs_abm_resched_code", "devs_execute_code", "devs_pop_code", "devs_peek_keeps_code", "devs_peek_full_code"]
